@@ -657,7 +657,8 @@ def const_set(tier):
     structs += L.pack(8, L.arrays_full(8)[::(12 if tier == 'quick' else 2)], 'ARR', per=10)
     structs += L.pack(16, L.signed_dedicated(16)[::(3 if tier == 'quick' else 1)], 'SIGNED', per=10)
     structs += consts_set('quick')[::(60 if tier == 'quick' else 6)]
-    structs = [dataclasses.replace(s, ctab=True) for s in structs]
+    # every other layout carries doc comments on the struct and its fields (they are forwarded to the generated functions)
+    structs = [dataclasses.replace(s, ctab=True, doc=(k % 2 == 1)) for k, s in enumerate(structs)]
     eds = enum_set('quick')[::(12 if tier == 'quick' else 2)]
     return structs, eds
 
